@@ -152,3 +152,31 @@ def _map_query(j, conv):
 
 
 builder('mapproxy.layer:MapQuery', _map_query)
+
+
+# ---- real compact caches for the bounded twin of CompactCacheBase.load_tiles (C05) ---------------------------------------------
+def _tile_bytes(c):
+    return ('tile-%d-%d-%d|' % tuple(c)).encode() * 3
+
+
+def _compact_cache(j, conv):
+    import atexit, shutil, tempfile
+    from io import BytesIO
+    from mapproxy.cache import compact
+    from mapproxy.cache.tile import Tile
+    from mapproxy.image import ImageSource
+    d = tempfile.mkdtemp(prefix='pyvc-compact.')
+    atexit.register(shutil.rmtree, d, True)
+    cache = (compact.CompactCacheV1 if j['version'] == 1 else compact.CompactCacheV2)(d)
+    for c in j['stored']:
+        assert cache.store_tile(Tile(tuple(c), ImageSource(BytesIO(_tile_bytes(c)))))
+    return cache
+
+
+def _tile_list(j, conv):
+    from mapproxy.cache.tile import Tile
+    return [Tile(tuple(c)) for c in j['coords']]
+
+
+builder('$compact_cache', _compact_cache)
+builder('$tile_list', _tile_list)
